@@ -219,3 +219,37 @@ mod test {
     assert_eq!(docs.len(), 0);
   }
 }
+
+#[cfg(feature = "verif-hooks")]
+pub mod verif_hooks {
+  //! the documents of one file as `sg scan` / `sg run` see them
+  use super::*;
+
+  /// `filter_file_rule(path, no rules, no tracing)`: the documents in the order they are scanned
+  pub fn scan_documents(path: &Path) -> Result<Vec<AstGrep>> {
+    let configs = RuleCollection::default();
+    let trace = Granularity::Nothing.scan_trace(RuleTrace::default());
+    Ok(filter_file_rule(path, &configs, &trace)?.into_iter().collect())
+  }
+
+  /// `filter_file_pattern(path, lang of the path, matcher for the host, one for every language
+  /// of `sub_langs`)`: the documents in the order they are searched
+  /// (first component: the host document is among them, at the front)
+  pub fn run_documents(
+    path: &Path,
+    pattern: &str,
+    sub_langs: &[&str],
+  ) -> Result<(bool, Vec<AstGrep>)> {
+    let lang = SgLang::from_path(path).ok_or_else(|| anyhow!("no language"))?;
+    let root = Pattern::try_new(pattern, lang).ok();
+    let subs: Vec<(SgLang, Pattern<SgLang>)> = sub_langs
+      .iter()
+      .filter_map(|s| {
+        let l = SgLang::from_str(s).ok()?;
+        Some((l, Pattern::try_new(pattern, l).ok()?))
+      })
+      .collect();
+    let units = filter_file_pattern(path, lang, root.as_ref(), &subs)?;
+    Ok((root.is_some(), units.into_iter().map(|u| u.grep).collect()))
+  }
+}
